@@ -1325,6 +1325,8 @@ class FuncGraph:
             self.nest -= 1
 
     def _try(self, s, st, loop):
+        # the construct itself is behaviour: `try: A finally: B` runs B when A raises, `A; B` does not
+        self.effect(st, "try", len(s.handlers), bool(s.finalbody), bool(s.orelse))
         entry = st.copy()
         body = st.copy()
         self.block(s.body, body, loop)
@@ -1364,7 +1366,9 @@ class FuncGraph:
                 else:
                     st.dkind, st.dval = "mixed", self.h("finally", self.final(st, loop), f.heap, f.exit)
             else:
+                self.effect(st, "finally")
                 self.block(s.finalbody, st, loop)
+        self.effect(st, "endtry")
 
     def s_FunctionDef(self, s, st, loop):
         st.env[s.name] = self.closure(s, s.args, s.body, st, "def")
